@@ -202,18 +202,21 @@ def vs_derivation(chk, prog, t):
             if pan:
                 chk.ob("C19.O3", "virtual sign digests the %s block without panicking" % tag, False, key="vsign:panic:%s" % v, where=pan[0].trace[-1][-1] if pan[0].trace else where, detail=str(pan[0].info))
                 continue
-            if len(rets) != 1:
-                chk.unproven("C19.O3", "vsign:paths:%s" % v, "virtual sign's handling of the %s block is not a single path (%d)" % (tag, len(rets)), where)
+            if not rets:
+                chk.unproven("C19.O3", "vsign:paths:%s" % v, "virtual sign's handling of the %s block has no returning path" % tag, where)
                 continue
-            h = rets[0].heap["*self"]
-            w_, h_ = h[4][fields.index("width")], h[4][fields.index("height")]
-            sty = h[4][fields.index("sign_type")]
-            want = t["dimensions"][v]
-            ok = w_[0] == "int" and h_[0] == "int" and (w_[1], h_[1]) == want
+            # every path (the sign's prior type, sizes and buffers are unconstrained) must derive the block's own dimensions and type
             n += 1
-            chk.ob("C19.O3", "virtual sign derives %dx%d from the %s block (= dimensions())" % (want[0], want[1], tag), ok, key="vsign:dims:%s" % v, where=where,
-                   detail="derives %s x %s" % (fmt_term(w_), fmt_term(h_)))
-            oks = sty[0] == "adt" and sty[3] == "Some" and sty[4][0][0] == "adt" and sty[4][0][3] == v
-            chk.ob("C19.O3", "virtual sign records sign type %s for its block" % tag, oks, key="vsign:type:%s" % v, where=where, detail=fmt_term(sty))
+            want = t["dimensions"][v]
+            for p in rets:
+                h = p.heap["*self"]
+                w_, h_ = h[4][fields.index("width")], h[4][fields.index("height")]
+                sty = h[4][fields.index("sign_type")]
+                ok = w_[0] == "int" and h_[0] == "int" and (w_[1], h_[1]) == want
+                cond = "; ".join("%s=%s" % (fmt_term(t_)[:50], v_) for (t_, v_, _) in p.decisions[-3:]) if len(rets) > 1 else ""
+                chk.ob("C19.O3", "virtual sign derives %dx%d from the %s block (= dimensions())" % (want[0], want[1], tag), ok, key="vsign:dims:%s" % v, where=where,
+                       detail="derives %s x %s%s" % (fmt_term(w_), fmt_term(h_), (" on the path where " + cond) if cond else ""))
+                oks = sty[0] == "adt" and sty[3] == "Some" and sty[4][0][0] == "adt" and sty[4][0][3] == v
+                chk.ob("C19.O3", "virtual sign records sign type %s for its block" % tag, oks, key="vsign:type:%s" % v, where=where, detail=fmt_term(sty))
     chk.floor("C19.O3", "virtual-sign derivations evaluated", n, 22)
     chk.note_analysed("functions", [pm["name"]])
